@@ -628,6 +628,12 @@ def scripted_histories():
         for lit in [lit_int(3), lit_str("ab"), lit_ints([1, 2, 3]), lit_mat([[1, 2], [3, 4]]), lit_str("xyz"), lit_int(5)]:
             h += [A_("a", lit), t, t]
         out.append(h)
+    # a node first evaluated with an inadmissible operand must not stay interpreted for ever
+    for o in ("scan:plus", "scan:times", "over:plus"):
+        t = A_("b", op1(o, var("a")))
+        out.append([A_("a", lit_str("ab")), t, A_("a", lit_mat([[1, 2], [3, 4]])), t, t, A_("a", lit_ints([2, 3])), t])
+    out.append([A_("f", ("fn", op1("size", op1("scan:plus", var("x"))))), E_(call("f", lit_str("ab"))),
+                E_(call("f", lit_mat([[1, 2], [3, 4]]))), E_(call("f", lit_ints([1, 2, 3])))])
     out.append([A_("f", ("fn", op1("size", op2("arith:times", var("x"), lit_int(2))))), E_(call("f", lit_ints([1, 2]))),
                 E_(call("f", lit_str("ab"))), E_(call("f", lit_int(4))), E_(call("f", lit_str("ab")))])
     # amend a slice obtained from a variable, then look at the variable
